@@ -218,6 +218,42 @@ pub fn key_of(path: &str) -> Value {
     }
 }
 
+/// Screening verdict for the schedule search (NOT a property verdict: suspicious schedules are run
+/// again with full logging and judged by TLC): does some version with a readable head and a tail
+/// name a block that is missing, undecodable or too short, or lack hunks its tail counts?
+pub fn suspicious(fsj: &Value) -> bool {
+    let mut blocks: std::collections::HashMap<String, (bool, i64)> = std::collections::HashMap::new();
+    for b in fsj["blocks"].as_array().cloned().unwrap_or_default() {
+        blocks.insert(b["h"].as_str().unwrap_or("").to_string(), (b["st"] == "ok", b["c"].as_array().map(|c| c.len() as i64).unwrap_or(0)));
+    }
+    if fsj["lock"].as_bool() == Some(true) {
+        return true;
+    }
+    for band in fsj["bands"].as_array().cloned().unwrap_or_default() {
+        if band["head"] != "ok" || band["tail"] != "ok" {
+            continue;
+        }
+        let hunks = band["hunks"].as_array().cloned().unwrap_or_default();
+        if band["tc"].as_i64().unwrap_or(-1) != hunks.len() as i64 {
+            return true;
+        }
+        for h in hunks {
+            if h["st"] != "ok" {
+                return true;
+            }
+            for e in h["es"].as_array().cloned().unwrap_or_default() {
+                for a in e["a"].as_array().cloned().unwrap_or_default() {
+                    match blocks.get(a["h"].as_str().unwrap_or("")) {
+                        Some((true, len)) if a["s"].as_i64().unwrap_or(0) + a["n"].as_i64().unwrap_or(0) <= *len => {}
+                        _ => return true,
+                    }
+                }
+            }
+        }
+    }
+    false
+}
+
 /// Which fields differ between two decoded payloads (of a hunk: per entry field, addresses as
 /// "a.h" / "a.s" / "a.n" / "a.count"; else the payload field names). Used to pick bit flips of
 /// different kinds.
